@@ -131,6 +131,17 @@ def multi_scenarios():
             sc[name] = base(evs, se, dict(fshocks=[
                 dict(target=ta, session=sa, triggerTime=0 if sa != sb else 1, length=2, rate=0.5, enabled=True),
                 dict(target=tb, session=sb, triggerTime=1, length=2, rate=-0.25, enabled=True)]), name)
+    # the same event entry listed under two sessions: it acts in both, each time counted from that session's start
+    for kind in ("f", "m"):
+        for target in ("M0", "M1"):
+            name = "%sshock_listed_in_both_sessions:%s" % (kind, target)
+            if kind == "f":
+                evs = {"SH": {"class": "FundamentalPriceShock", "target": target, "triggerTime": 1, "priceChangeRate": 0.5, "shockTimeLength": 1}}
+                meta = dict(fshocks=[dict(target=target, session=i, triggerTime=1, length=1, rate=0.5, enabled=True) for i in (0, 1)])
+            else:
+                evs = {"SH": {"class": "OrderMistakeShock", "target": target, "triggerTime": 1, "priceChangeRate": -0.5, "orderVolume": 5, "orderTimeLength": 2}}
+                meta = dict(mshocks=[dict(target=target, session=i, triggerTime=1, rate=-0.5, volume=5, lifetime=2, enabled=True) for i in (0, 1)])
+            sc[name] = base(evs, [["SH"], ["SH"]], meta, name)
     # a rule whose hooks are un-timed and bound to ANOTHER market (or to both), listed before / after the shock;
     # the rules' thresholds are too wide to ever act
     for rule, rt in (("TradingHaltRule", ["M1"]), ("TradingHaltRule", ["M0", "M1"]), ("PriceLimitRule", ["M1"])):
